@@ -205,8 +205,6 @@ impl<T: Qcow2IoOps> Qcow2Dev<T> {
         let mut len = buf.len();
         let old_offset = offset;
         let old_len = len;
-        let single =
-            (offset >> info.cluster_bits()) == ((offset + (len as u64) - 1) >> info.cluster_bits());
 
         if offset >= vsize {
             if !info.is_back_file() {
@@ -230,6 +228,11 @@ impl<T: Qcow2IoOps> Qcow2Dev<T> {
         if (offset & (bs_mask as u64)) != 0 {
             return Err("un-aligned offset".into());
         }
+
+        // only evaluated after the arguments are validated: `len` isn't zero
+        // and `offset` is inside the image
+        let single = (offset >> info.cluster_bits())
+            == (offset.saturating_add(len as u64 - 1) >> info.cluster_bits());
 
         log::debug!("read_at: offset {:x} len {} >>>", offset, buf.len());
 
